@@ -163,6 +163,8 @@ def run(ctx):
         acq |= {callee_of(c) for c in sites}
     acq.add(SQL_READ)
     ctx.floor("K1-snapshot-fixed", "snapshot acquisitions in QueryServer::read", len(n_acq_sites[QS_READ]), 9)
+    for ctor, sites in n_acq_sites.items():
+        ctx.sample(f"{T.nice(ctor)} acquires: " + ", ".join(f"{T.nice(callee_of(c))}@{c.get('line')}" for c in sites))
     ctx.floor("K1-snapshot-fixed", "snapshot acquisitions in Backend::read", len(n_acq_sites[BE_READ]), 3)
     ctx.floor("K1-snapshot-fixed", "snapshot acquisitions in IdlArcSqlite::read", len(n_acq_sites[ARC_READ]), 6)
     traits = ("kanidmd_lib::server::QueryServerTransaction::", "kanidmd_lib::be::BackendTransaction::",
@@ -205,6 +207,8 @@ def run(ctx):
                          file=rec["file"], line=rec["line"]):
             continue
         for d in dbc:
+            if b.precedes(ec[0], d):
+                ctx.sample(f"{rec['file']}:{ec[0].get('line')} {T.nice(fn)} :: entry cache {verb} (line {ec[0].get('line')}) precedes {T.nice(dbfn)} (line {d.get('line')})")
             ctx.check(b.precedes(ec[0], d), "K6-acquire-order", fn, "entry-cache-before-database",
                       f"entry cache {verb} is evaluated before {T.nice(dbfn)}",
                       f"{T.nice(fn)}: the database snapshot ({T.nice(dbfn)}, line {d.get('line')}) is no longer taken after the entry cache {verb} (line {ec[0].get('line')}): "
